@@ -172,6 +172,32 @@ theorem response_then_snapshot_agrees :
     (processCurrent (placeReport fresh { status := .success, orderStatus := some .executionComplete, betId := some 9 }) doneSnap).complete = true := by
   decide +kernel
 
+/-! ### adoption of unknown orders (restart): the adopted order carries the exchange's terms, whatever its type -/
+
+/-- a LIMIT bet is adopted as a limit order with the reported price, size and persistence -/
+theorem adopted_limit (c : Live.CurrentTerms) (h : c.kind = .limit) :
+    Live.adoptType c = { kind := .limit, price := some c.price, size := some c.size, persistence := some c.persistence } := by
+  unfold Live.adoptType; rw [h]
+
+/-- a LIMIT_ON_CLOSE bet is adopted with the reported starting-price liability as its liability and the reported price as its
+    limit (the two are different fields of the snapshot: `bspLiability` and `priceSize.price`) -/
+theorem adopted_limit_on_close (c : Live.CurrentTerms) (h : c.kind = .limitOnClose) :
+    (Live.adoptType c).kind = .limitOnClose ∧ (Live.adoptType c).liability = some c.bspLiability ∧ (Live.adoptType c).price = some c.price := by
+  unfold Live.adoptType; rw [h]; exact ⟨rfl, rfl, rfl⟩
+
+/-- a MARKET_ON_CLOSE bet is adopted with the reported liability and no price -/
+theorem adopted_market_on_close (c : Live.CurrentTerms) (h : c.kind = .marketOnClose) :
+    (Live.adoptType c).kind = .marketOnClose ∧ (Live.adoptType c).liability = some c.bspLiability ∧ (Live.adoptType c).price = none := by
+  unfold Live.adoptType; rw [h]; exact ⟨rfl, rfl, rfl⟩
+
+/-- the type is never changed by adoption, and the adopted terms determine the reported ones that matter for the type: two
+    snapshots adopted to the same order type agree on kind, and on price / size / liability where the type has them -/
+theorem adoption_keeps_kind (c : Live.CurrentTerms) : (Live.adoptType c).kind = c.kind := by
+  unfold Live.adoptType; cases c.kind <;> rfl
+
+example : Live.adoptType { kind := .limitOnClose, price := 3, bspLiability := 20 } =
+    { kind := .limitOnClose, liability := some 20, price := some 3 } := by decide
+
 /-! ### adoption of unknown orders (restart): proved on the reference model in C19 -/
 
 theorem adoption (i : Ref.Inst) (market : Nat) (s : Ref.Strat) (sep id : List Char)
